@@ -42,6 +42,7 @@ type Statement struct {
 type Checkpoint int
 
 func (s *Statement) Checkpoint() Checkpoint {
+	verifHook(s, "checkpoint", nil, "")
 	return Checkpoint(len(s.operations))
 }
 
@@ -49,6 +50,7 @@ func (s *Statement) Rollback(cp Checkpoint) error {
 	if cp < 0 || int(cp) > len(s.operations) {
 		return fmt.Errorf("invalid checkpoint %d, statement has %d operations", cp, len(s.operations))
 	}
+	verifHook(s, "rollback-begin", nil, fmt.Sprint(int(cp)))
 
 	for i := len(s.operations) - 1; i >= int(cp); i-- {
 		if err := s.undoOperation(i); err != nil {
@@ -57,6 +59,7 @@ func (s *Statement) Rollback(cp Checkpoint) error {
 	}
 
 	s.operations = s.operations[:cp]
+	verifHook(s, "rollback-end", nil, fmt.Sprint(int(cp)))
 	return nil
 }
 
@@ -118,6 +121,7 @@ func (s *Statement) Evict(reclaimeeTask *pod_info.PodInfo, message string,
 		},
 	)
 	reclaimeeTask.IsVirtualStatus = true
+	verifHook(s, "evict", reclaimeeTask, "")
 
 	log.InfraLogger.V(6).Infof("Statement evicted task: <%v/%v> from node: <%v>",
 		reclaimeeTask.Namespace, reclaimeeTask.Name, node.Name)
@@ -190,6 +194,7 @@ func (s *Statement) unevict(
 			})
 		}
 	}
+	verifHook(s, "unevict", reclaimee, "")
 
 	return nil
 }
@@ -286,6 +291,7 @@ func (s *Statement) Pipeline(task *pod_info.PodInfo, hostname string, updateTask
 		},
 	})
 	task.IsVirtualStatus = true
+	verifHook(s, "pipeline", task, hostname)
 
 	log.InfraLogger.V(6).Infof(
 		"Statement pipelined task: <%v/%v> to node: <%v>, gpuGroup: <%v>",
@@ -349,6 +355,7 @@ func (s *Statement) Allocate(task *pod_info.PodInfo, hostname string) error {
 		},
 	)
 	task.IsVirtualStatus = true
+	verifHook(s, "allocate", task, hostname)
 
 	log.InfraLogger.V(6).Infof(
 		"Statement allocated task: <%v/%v> to node: <%v>",
@@ -423,6 +430,7 @@ func (s *Statement) unallocate(task *pod_info.PodInfo, previousNodeName string, 
 			})
 		}
 	}
+	verifHook(s, "unallocate", task, previousNodeName)
 	return nil
 }
 
@@ -471,6 +479,7 @@ func (s *Statement) unpipeline(
 			})
 		}
 	}
+	verifHook(s, "unpipeline", task, hostname)
 
 	return nil
 }
@@ -481,6 +490,7 @@ func (s *Statement) Unevict(taskToUnevict *pod_info.PodInfo) error {
 }
 
 func (s *Statement) ConvertAllAllocatedToPipelined(jobID common_info.PodGroupID) error {
+	verifHook(s, "convert-begin", nil, string(jobID))
 	for _, op := range s.operations {
 		currentTaskInOperations := op.TaskInfo()
 
@@ -511,6 +521,7 @@ func (s *Statement) ConvertAllAllocatedToPipelined(jobID common_info.PodGroupID)
 		}
 	}
 	s.operations = newOperations
+	verifHook(s, "convert-end", nil, string(jobID))
 
 	return nil
 }
@@ -526,11 +537,13 @@ func (s *Statement) Discard() {
 	}
 
 	log.InfraLogger.V(6).Infof("Discarding operations ...")
+	verifHook(s, "discard-begin", nil, "")
 	for i := len(s.operations) - 1; i >= 0; i-- {
 		_ = s.undoOperation(i)
 	}
 
 	s.clearOperations()
+	verifHook(s, "discard-end", nil, "")
 }
 
 func (s *Statement) Commit() error {
@@ -542,6 +555,8 @@ func (s *Statement) Commit() error {
 	var err error
 
 	log.InfraLogger.V(4).Infof("Committing operations ...")
+	verifHook(s, "commit-begin", nil, "")
+	defer verifHook(s, "commit-end", nil, "")
 	for i, op := range s.operations {
 		if !s.operationValid(i) {
 			continue
